@@ -430,6 +430,12 @@ def ite(c, a, b):
         n = not_(c)
         if not ((n[0] == 'cmp' and n[1] in ('!=', '<=', 'notin', 'isnot')) or n[0] in ('or', 'not')):
             return ite(n, b, a)
+    # True if c else False  is  bool(c);  False if c else True  is  not c
+    if a == ('c', True) and b == ('c', False):
+        boolean = c[0] in ('cmp', 'not') or (c[0] in ('and', 'or') and all(x[0] in ('cmp', 'not') for x in c[1]))
+        return c if boolean else ('call', ('g', 'bool'), (c,), ())
+    if a == ('c', False) and b == ('c', True):
+        return not_(c)
     # nested conditionals with a shared arm:  (x if d else y) if c else y  ==  x if (c and d) else y
     if a[0] == 'ite' and a[3] == b:
         return ite(nary('and', (c, a[1])), a[2], b)
@@ -508,6 +514,9 @@ def call(f, args=(), kws=()):
     if f == ('g', 'isinstance') and nokw and len(args) == 2 and args[1][0] == 'tuple' and len(args[1][1]) >= 2 \
             and not any(e[0] == 'star' for e in args[1][1]):
         return nary('or', tuple(('call', f, (args[0], e), ()) for e in args[1][1]))
+    # x.get(k, None) is x.get(k)
+    if f[0] == 'attr' and f[2] == 'get' and nokw and len(args) == 2 and args[1] == ('c', None):
+        args = args[:1]
     # range(0, n) is range(n); range(a, b, 1) is range(a, b)
     if f == ('g', 'range') and nokw and len(args) == 3 and args[2] == C(1):
         args = args[:2]
